@@ -1,12 +1,14 @@
 import MindsVerif.Model.Heap
 import MindsVerif.Model.HeapIso
 import MindsVerif.Model.PyEq
+import MindsVerif.Model.SingleLine
 /-! Line protocol driver for the C18 models.
   copy HOOK ROOT | KIND k=v k=v … | KIND …      cells in address order; v ::= r<addr> | <atom token>
       → canonical form of the copy (`Heap.canon`) # iso=<Heap.isoCheck original copy>, or `none`
   stepeq TY k=v … | TY k=v …                     → true | false | none | raises   (`PlanStep.__eq__`)
   planeq FIXED SAMETYPE _ s s … | _ s s …        step tokens (after a dummy `_`); equal tokens = equal steps (`QueryPlan.__eq__`)
   hash N                                          → TypeError | ok               (`Result.__hash__` as pinned)
+  sline VARIANT n,n,n…                            character codes; `to_single_line` (pinned | fixed) → character codes
   coleq a b c d e f | a b c d e f                 name type pk default length nullable (`TableColumn.__eq__`) -/
 open MindsVerif.Heap MindsVerif.PyEq
 
@@ -59,6 +61,12 @@ def handle (line : String) : String :=
       match rest with
       | [b] => showR (planEq (fun (x y : String) => if x == y then R.true else R.false) (fixed == "1") (same == "1") (a.drop 1) ((words b).drop 1))
       | _ => "bad-line"
+    | ["sline", variant, codes] =>
+      let cs : List Char := (codes.splitOn ",").filterMap (fun t => t.toNat?.map Char.ofNat)
+      let out := if variant == "fixed" then MindsVerif.SingleLine.fixedGo none false false false cs
+                 else MindsVerif.SingleLine.collapseGo false false cs
+      ",".intercalate (out.map (fun c => toString c.toNat))
+    | ["sline", _] => ""
     | ["hash", n] =>
       match n.toInt? with
       | some i => (match resultHash (fun x => x) i with | .ok _ => "ok" | .error e => e)
